@@ -29,10 +29,10 @@
    shape : obs -> shape is what the PROPERTY promises of the state at some heads: per object (in creation
    order, which a renaming preserves) its type and
      - list / text: per visible element, in document order, its register: the kinds of the conflicting
-       values in ascending op id (conflict structure), strings with their per-character classes (hence
-       their width in every text encoding), bytes with their length, child objects by their position in
-       the object list (nesting);
-     - map / table: per key its character classes and its register — as a SORTED list: key names change,
+       values in ascending op id (conflict structure), strings with the UTF-8 length of each character
+       (hence their width in every text encoding), bytes with their length, child objects by their
+       position in the object list (nesting);
+     - map / table: per key the UTF-8 lengths of its characters and its register — as a SORTED list: key names change,
        and with them the order in which keys are listed, so the shape of a map is the multiset of its
        entries.
    No proofs here (Crdt/AnonProofs.v). *)
@@ -153,15 +153,19 @@ Definition content_char (p : tables) (syn : N) (c : N) : N :=
   else struct_replace p c.
 
 (* ------------------------------------------------------------------ shape *)
-(* content strings: retained characters verbatim (16 + c), replaced ones by their UTF-8 length *)
+(* the FINE character classes of shape.rs (what the test-suite's ShapeSignature keeps):
+   content strings: retained characters verbatim (16 + c), replaced ones by their UTF-8 length;
+   structural strings: ASCII control = 0, otherwise the UTF-8 length (1 = printable ASCII).
+   The code does NOT preserve them in all cases (AnonProofs: struct_class_refuted, content_class_refuted);
+   the shape of a STATE below keeps the UTF-8 length of each character only (u8w), which determines the
+   width in every text encoding and which the code does preserve. *)
 Definition cclass (c : N) : N := if is_ws c || is_ctl c then 16 + c else u8w c.
-(* structural strings: ASCII control = 0, otherwise the UTF-8 length (1 = printable ASCII) *)
 Definition kclass (c : N) : N := if is_ctl c then 0 else u8w c.
 
 Definition sshape (v : scalar) : list N :=
   match v with
   | SNull => [0] | SBool _ => [1] | SInt _ => [2] | SUint _ => [3] | SF64 _ => [4]
-  | SStr s => 5 :: map cclass s
+  | SStr s => 5 :: map u8w s
   | SBytes b => [6; N.of_nat (length b)]
   | SCounter _ => [7]
   | STimestamp _ => [8]
@@ -193,7 +197,7 @@ Fixpoint list_cmp {A} (cmp : A -> A -> comparison) (a b : list A) : comparison :
 Definition lcmp : list (list N) -> list (list N) -> comparison := list_cmp bytes_cmp.
 
 Definition eshape (ids : list opid) (kr : list N * regobs) : list (list N) :=
-  map kclass (fst kr) :: rshape ids (snd kr).
+  map u8w (fst kr) :: rshape ids (snd kr).
 
 Definition oshape_t := (objtype * list (list (list N)))%type.
 Definition shape_t := list oshape_t.
@@ -208,11 +212,9 @@ Definition oshape (ids : list opid) (o : oobs) : oshape_t :=
 Definition shape (o : obs) : shape_t := map (oshape (map oo_id o)) o.
 
 (* ---- what a shape determines ---- *)
-(* width of a character of class k in encoding e *)
+(* width in encoding e of a character whose UTF-8 length is k *)
 Definition class_width (e : enc) (k : N) : N :=
-  if k <? 16 then
-    match e with EncCP => 1 | EncU8 => k | EncU16 => if k =? 4 then 2 else 1 end
-  else cp_width e (k - 16).
+  match e with EncCP => 1 | EncU8 => k | EncU16 => if k =? 4 then 2 else 1 end.
 
 (* width of a text element with register shape rs (OpBuilder::width: the winner's string, U+FFFC for
    a non-string) *)
